@@ -5,6 +5,7 @@ and "unreg": bool):
   {"kind": "mut", "chunk": i, "muts": [[k, pos, payload], ...]}   corpus chunk SMALL[i] mutated at token level
   {"kind": "mut", "entry": "attr"|"type", "seed": i, "muts": ...} same over the ATTR_SEEDS / TYPE_SEEDS tables
   {"kind": "seq", "toks": [t, ...]}                                TOKENS[t] joined by " " (GLUE removes the blank)
+  {"kind": "eof", "seed": i, "cut": k, "tail": j, "sep": 0|1}     EOF_SEEDS[i] cut at token boundary k + EOF_TAILS[j]
   {"kind": "text", "text": "..."}                                  literal input (known-finding witnesses, atheris)
 Oracle: Parser(ctx, text).parse_module() + verify()  (or parse_attribute / parse_type) must end in
   IR | ParseError | DiagnosticException; any other exception = internal error (signature: type + innermost
@@ -33,7 +34,13 @@ RULE = ("(a) corpus chunks (*.mlir under tests/ and docs/, split on '// -----', 
         "lexemes, non-ASCII letters and digits, quotes and unterminated literals, prefixed identifiers, bracket "
         "runs; (b) sentences of a small context-free grammar of generic ops, regions, block labels, attributes, "
         "types, affine maps and locations (expanded from a list of integers) plus 0-3 random token edits, and "
-        "uniformly random token sequences; (c) an atheris coverage-guided campaign (quick: 30 s next to shard 0, "
+        "uniformly random token sequences; (b') two exhaustive families: 'end of input' (37 short op/attribute/"
+        "type texts cut at every token boundary and continued, glued or after a blank, with each of 39 "
+        "incomplete lexemes such as 0x, 1e, \", @, %0#, loc(, so each is also the very end of an input) and "
+        "'forward references' (graph-region modules in 4 wrappers whose operands, successors and block "
+        "arguments are used before/after their definition: several result indices of one multi-result op, "
+        "index out of range, same index twice, use/definition type mismatch; all u, ud, du, uud, udu "
+        "line combinations; the same lines are also grammar non-terminals); (c) an atheris coverage-guided campaign (quick: 30 s next to shard 0, "
         "thorough: 8 min next to every shard) whose crash/time-out candidates are re-judged by the same plain "
         "oracle. Entry: Parser(ctx, text).parse_module()+verify(), parse_attribute(), parse_type() in a fresh "
         "Context with all dialects registered lazily (allow_unregistered from the recipe). Oracle: outcome is IR, "
@@ -55,8 +62,8 @@ ASSUMPTIONS = [
     "PyRDLError, plain Exception and the other non-Diagnostic xdsl exception classes are internal errors when "
     "they escape the parser (xdsl-opt only reports ParseError and DiagnosticException)",
     "a fresh Context per input; every dialect module is imported once before the measurements start",
-    "a hang needs 4 over-budget runs of the same input; under heavy machine load single over-budget runs are "
-    "reported as inconclusive, never as violations",
+    "a hang needs 5 over-budget runs of the same input, each followed by a reference parse that runs at normal "
+    "speed (otherwise: inconclusive 'machine_too_noisy_for_timing'); single over-budget runs are inconclusive",
 ]
 
 PLAIN_CAP = 14       # plain characters allowed in a string literal the lexer regex cannot match
@@ -136,7 +143,25 @@ TOKENS = [
     "d0 * d0", "d0 + 1", "-d0", "d0 floordiv 2", "d0 == 0", "d0 >= 0", "d0 <= 0",
     "strided<[", "], offset: ", "offset: ?", "strided<[?, 1], offset: ?>",
     "2x", "?x", "2", "d1", "==", ">=", "<=", "@b", ")>",
+    # forward references (graph-region style): uses of values / blocks / block arguments defined later
+    '"test.op"(%x) : (i32) -> ()', '"test.op"(%x#0) : (i32) -> ()', '"test.op"(%x#1) : (i64) -> ()',
+    '"test.op"(%x#0, %x#1) : (i32, i64) -> ()', '"test.op"(%x#1, %x#0) : (i64, i32) -> ()',
+    '"test.op"(%x#0, %x#0) : (i32, i32) -> ()', '"test.op"(%x#2) : (i32) -> ()',
+    '"test.op"(%x#1) : (i32) -> ()', '"test.op"(%x#0, %x#0) : (i32, i64) -> ()',
+    '"test.op"(%y, %x#1) : (index, i64) -> ()', '"test.op"(%a0) : (i32) -> ()',
+    '"test.termop"() [^fb] : () -> ()', '"test.termop"(%a0) [^fb, ^fb] : (i32) -> ()',
+    '%z = "test.op"(%x#1, %z) : (i64, i32) -> (i32)', '"test.op"(%x#99999999999999999999) : (i32) -> ()',
+    '"test.op"(%x#0, %x#1, %x#2) : (i32, i64, f32) -> ()',
+    '%x:2 = "test.op"() : () -> (i32, i64)', '%x = "test.op"() : () -> (i32)',
+    '%x:3 = "test.op"() : () -> (i32, i64, f32)', '%x, %y = "test.op"() : () -> (i32, index)',
+    '%y = "test.op"() : () -> (index)', '%x:2 = "test.op"() : () -> (i64, i32)',
+    '%x:0 = "test.op"() : () -> ()', "^fb(%a0 : i32):", "^fb(%a0 : i64, %x : i32):", "^fb:",
+    '%x:2 = "test.op"(%x#1) : (i64) -> (i32, i64)', '"builtin.module"() ({',
 ]
+FWD_USES = TOKENS[-28:-12]
+FWD_DEFS = TOKENS[-12:-1]
+FWD_WRAPS = [("", ""), ("builtin.module {", "}"), ('"test.op"() ({', "}) : () -> ()"),
+             ('"builtin.module"() ({', "}) : () -> ()")]
 TI = {}
 for _i, _t in enumerate(TOKENS):
     TI.setdefault(_t, _i)
@@ -184,6 +209,63 @@ TYPE_SEEDS = [
     "!accfg.state<\"a\">", "!accfg.token<\"a\">", "!llvm.ptr<1>", "!llvm.metadata", "!test.param_type<i32>",
     "#dmp.exchange<at [1, 0] size [1, 4] source offset [-1, 0] to [1, 0]>",
 ]
+
+
+# end-of-input family: every seed is cut at every token boundary and continued with every incomplete lexeme,
+# so that each lexeme also occurs as the very last characters of an input (append only)
+EOF_TAILS = ["", "0x", "0", "1e", "1.", "1.0e", "1.0e+", "-", '"', '"\\', "@", '@"', "%", "%0#", "^", "#", "!",
+             "<", "[", "(", "{", ":", "::", "->", "loc(", "dense<", "array<i32:", "0b", ".", "0X", "..", "//",
+             "{-#", "x", "?", "=", ",", "*", "+"]
+EOF_SEEDS = [
+    ("module", '"test.op"() : () -> ()'),
+    ("module", '%0 = "test.op"() {a = 1 : i32} : () -> (i32)'),
+    ("module", "%0 = arith.constant 1 : i32"),
+    ("module", "builtin.module { }"),
+    ("module", "func.func @f(%a : i32) -> i32 { func.return %a : i32 }"),
+    ("module", '"test.op"() ({ ^bb0(%a : i32): "test.termop"() [^bb0] : () -> () }) : () -> ()'),
+    ("module", '"test.op"() <{p = dense<[1, 2]> : tensor<2xi32>}> : () -> ()'),
+    ("module", '%0 = "test.op"() : () -> (i32) loc("f":1:2)'),
+    ("module", "#a = affine_map<(d0) -> (d0)>"),
+    ("module", "!t = tuple<i32>"),
+    ("module", '%0:2 = "test.op"() : () -> (i32, i64) "test.op"(%0#1) : (i64) -> ()'),
+    ("attr", "1 : i32"), ("attr", "1.0 : f32"), ("attr", "0x7FC00000 : f32"),
+    ("attr", "dense<[1, 2]> : tensor<2xi32>"), ("attr", "array<i32: 1, 2>"), ("attr", '[1 : i32, "a"]'),
+    ("attr", "{a = 1 : i32}"), ("attr", "@a::@b"), ("attr", "affine_map<(d0)[s0] -> (d0 + s0)>"),
+    ("attr", "affine_set<(d0) : (d0 >= 0)>"), ("attr", "strided<[1, ?], offset: ?>"), ("attr", 'loc("a":1:1)'),
+    ("attr", '"abc"'), ("attr", 'opaque<"d", "0x00"> : tensor<1xi8>'),
+    ("attr", "sparse<[[0]], [1]> : tensor<2xi32>"), ("attr", "#builtin.int<1>"),
+    ("attr", "dense_resource<a> : tensor<1xi32>"), ("attr", "dense<(1.0, 2.0)> : tensor<1xcomplex<f32>>"),
+    ("type", "i32"), ("type", "tensor<2x?xf32>"), ("type", "memref<2xi32, strided<[1]>, 1 : i32>"),
+    ("type", "vector<[4]x2xi8>"), ("type", "(i32, f32) -> (i1)"), ("type", "tuple<i32, complex<f32>>"),
+    ("type", "!llvm.struct<(i32, f32)>"), ("type", '!test.type<"a">'),
+]
+
+
+def eof_boundaries(text):
+    """End offsets of the prefixes of `text` that end at a token boundary (0 = empty prefix)."""
+    ends, pos = [0], 0
+    for t, blank in split_tokens(text):
+        pos += len(t)
+        if not blank:
+            ends.append(pos)
+    return ends
+
+
+def eof_text(seed, cut, tail, sep):
+    entry, text = EOF_SEEDS[seed % len(EOF_SEEDS)]
+    ends = eof_boundaries(text)
+    return entry, text[:ends[cut % len(ends)]] + (" " if sep else "") + EOF_TAILS[tail % len(EOF_TAILS)]
+
+
+def fwd_tokens(wrap, lines):
+    """Token indices of a module made of FWD_USES/FWD_DEFS lines (index into uses + defs) in wrapper `wrap`."""
+    pool = FWD_USES + FWD_DEFS
+    w = FWD_WRAPS[wrap % len(FWD_WRAPS)]
+    toks = [TI[w[0]]] if w[0] else []
+    toks += [TI[pool[int(i) % len(pool)]] for i in lines]
+    if w[1]:
+        toks.append(TI[w[1]])
+    return toks
 
 
 # ------------------------------------------------------------------------------------------------
@@ -591,7 +673,18 @@ def _region(text, lexpos):
     return a, b
 
 
-def confirm_hang(entry, text, unreg, first):
+_CALIBRATION_TEXT = '%0 = "test.op"() {a = dense<[1, 2]> : tensor<2xi32>} : () -> (i32)'
+CALIBRATION_LIMIT = 0.05    # CPU seconds; the reference parse normally takes ~0.0005 s
+
+
+def machine_is_steady():
+    """Time claims are only made while a fixed reference parse runs at (roughly) its normal speed: on a
+    starved virtual machine the CPU clock of a process has been seen to advance by seconds during a parse
+    that normally takes a millisecond, several times in a row."""
+    return run_once("module", _CALIBRATION_TEXT, True, cap=30.0).cpu <= CALIBRATION_LIMIT
+
+
+def _confirm_hang(entry, text, unreg, first):
     """first: the over-budget Outcome. -> ("hang", site, detail) | ("inconclusive", label, detail)
 
     1. re-measure alone three times (the third run with twice the budget, to obtain a complete time):
@@ -612,6 +705,8 @@ def confirm_hang(entry, text, unreg, first):
             full = o.cpu
         else:
             site, lexpos = (o.site, o.via), o.lexpos
+        if not machine_is_steady():
+            return ("inconclusive", "machine_too_noisy_for_timing", "")
     a, b = _region(text, lexpos)
     reg = text[a:b]
     head = (f"{full:.2f}s" if full is not None else f"> {2 * T:.2f}s") + \
@@ -638,6 +733,22 @@ def confirm_hang(entry, text, unreg, first):
     return ("inconclusive", "hang_region_not_found", f"site {site} lexpos {lexpos}")
 
 
+def confirm_hang(entry, text, unreg, first):
+    """_confirm_hang, and for a 'hang' verdict one last over-budget run of the unchanged input, bracketed by
+    two steady reference parses (the growth evidence was collected after the re-measurements)."""
+    res = _confirm_hang(entry, text, unreg, first)
+    if res[0] == "hang":
+        if not machine_is_steady():
+            return ("inconclusive", "machine_too_noisy_for_timing", "")
+        o = run_once(entry, text, unreg)
+        if o.status != "timeout":
+            return ("inconclusive", "over_budget_not_reproduced", o) if o.cpu <= budget(len(text)) else \
+                ("inconclusive", "slow_but_linear", "final run completed")
+        if not machine_is_steady():
+            return ("inconclusive", "machine_too_noisy_for_timing", "")
+    return res
+
+
 # ------------------------------------------------------------------------------------------------
 def build(recipe):
     """-> (entry, unreg, text)"""
@@ -648,6 +759,8 @@ def build(recipe):
         text = recipe["text"]
     elif kind == "seq":
         text = join_tokens(recipe["toks"])
+    elif kind == "eof":
+        entry, text = eof_text(int(recipe["seed"]), int(recipe["cut"]), int(recipe["tail"]), int(recipe["sep"]))
     elif kind == "mut":
         if entry == "module":
             cs = small_chunks()
@@ -662,7 +775,7 @@ def build(recipe):
     return entry, unreg, text
 
 
-def judge(h, recipe, raw=False, regression=False):
+def judge(h, recipe, raw=False, regression=False, distinct=False, label=None):
     """Plain oracle on one recipe. raw=True (replay of literal witnesses): no by-construction capping.
     regression=True: a committed replay, not a generated case (not counted as non-trivial coverage)."""
     entry, unreg, text = build(recipe)
@@ -686,8 +799,9 @@ def judge(h, recipe, raw=False, regression=False):
         return
     o = run_once(entry, text, unreg)
     nt = o.consumed and text not in corpus_texts() and not regression
-    label = f"{'replay' if regression else kind}:{entry}:{o.status}"
-    h.case(recipe, nt, label=label, sample={"recipe": recipe, "text": text[:300], "outcome": o.status})
+    label = f"{'replay' if regression else (label or kind)}:{entry}:{o.status}"
+    h.case(recipe, nt, label=label, distinct=distinct,
+           sample={"recipe": recipe, "text": text[:300], "outcome": o.status})
     if o.status == "excluded":
         h.exclude(o.type)
     elif o.status == "wall_timeout":
@@ -828,7 +942,17 @@ GRAMMAR = {
              ["func.func", "$vis", "$symroot", "(", "$funcarg*,", ")", "$funcres", "$region?"],
              ["$res", "arith.constant", "$attr"], ["$res", "arith.constant", "$num", ":", "$type"],
              ["{-# dialect_resources: {", "builtin: { a: \"0x08000000\" }", "} #-}"]],
-    "module": [["$top1"], ["$top1", "$top1"], ["$top1", "$top1", "$top1"]],
+    "module": [["$top1"], ["$top1", "$top1"], ["$top1", "$top1", "$top1"], ["$fwdmod"], ["$fwdmod", "$top1"]],
+    # values, blocks and block arguments used before (and after) their definition, several result indices of
+    # one multi-result op, indices out of range, use/definition type mismatches
+    "fwduse": [[t] for t in FWD_USES],
+    "fwddef": [[t] for t in FWD_DEFS],
+    "fwdbody": [["$fwduse", "$fwddef"], ["$fwduse", "$fwduse*", "$fwddef", "$fwduse*"],
+                ["$fwduse", "$fwddef", "$fwduse", "$fwddef"], ["$fwddef", "$fwduse", "$fwduse*"],
+                ["$fwduse", "$fwduse*"]],
+    "fwdmod": [["$fwdbody"], ["builtin.module {", "$fwdbody", "}"],
+               ['"test.op"() ({', "$fwdbody", "}) : () -> ()"],
+               ['"builtin.module"() ({', "$fwdbody", "}) : () -> ()"]],
 }
 
 
@@ -929,6 +1053,30 @@ def strategies(h):
             ("random_tokens", s_rand, 1)]
 
 
+def enumerate_families(h):
+    """Deterministic, exhaustive-within-bounds families (sharded by index, identical in both tiers)."""
+    n = 0
+    # end of input: every seed x every token boundary x every incomplete lexeme, glued and after a blank
+    for si, (_entry, text) in enumerate(EOF_SEEDS):
+        for cut in range(len(eof_boundaries(text))):
+            for tail in range(len(EOF_TAILS)):
+                for sep in (0, 1):
+                    n += 1
+                    if n % h.nshards == h.shard:
+                        judge(h, {"kind": "eof", "seed": si, "cut": cut, "tail": tail, "sep": sep}, distinct=True)
+    # forward references: u | u d | u u d | u d u | d u  in every wrapper (u: use line, d: definition line)
+    nu, nd = len(FWD_USES), len(FWD_DEFS)
+    us, ds = range(nu), range(nu, nu + nd)
+    shapes = [[(u,) for u in us], [(u, d) for u in us for d in ds], [(d, u) for u in us for d in ds],
+              [(u, v, d) for u in us for v in us for d in ds], [(u, d, v) for u in us for v in us for d in ds]]
+    for wrap in range(len(FWD_WRAPS)):
+        for shape in shapes:
+            for lines in shape:
+                n += 1
+                if n % h.nshards == h.shard:
+                    judge(h, {"kind": "seq", "toks": fwd_tokens(wrap, lines)}, distinct=True, label="fwd")
+
+
 if __name__ != "__main__":
     _setup_process()
 
@@ -956,6 +1104,8 @@ def checks(h):
     if fuzz is not None:
         fuzz.start()
     try:
+        enumerate_families(h)
+
         def body(recipe):
             judge(h, recipe)
 
